@@ -99,6 +99,15 @@ def cases(tier, seed):
         add(net(n_lt=2, edges=edges_of(pat, etpl_on=list(range(len(pat))), etpl_vals=True), etpl=True), 'edge_tpl_values', 0.1)
     for pat in list(patterns(lt3, lt3, 3))[10::7]:
         add(net(n_lt=3, edges=edges_of(pat, etpl_on=list(range(len(pat))), etpl_vals=True), etpl=True), 'edge_tpl_values3', 0.1)
+    # groups of >= 10 edges: the sparseness rule switches to the indexed path by itself (default threshold 0.1)
+    for nt in (10, 11, 12):
+        G = [f'g{i}' for i in range(nt)]
+        add(net(n_s=1, n_t=nt, edges=edges_of([('s0', g, W[i % len(W)] + 0.125 * i) for i, g in enumerate(G)])), f'fanout{nt}')
+        add(net(n_s=2, n_t=nt, edges=edges_of([(f's{i % 2}', g, W[i % len(W)] + 0.125 * i) for i, g in enumerate(G)])), f'fanout2x{nt}')
+    P12 = [f'p{i}' for i in range(12)]
+    add(net(n_lt=12, edges=edges_of([(P12[i], P12[(i + 1) % 12], 0.5 + 0.25 * i) for i in range(12)])), 'ring12')
+    add(net(n_lt=12, edges=edges_of([('p0', P12[i], 0.5 + 0.25 * i) for i in range(12)])), 'hub12')
+    add(net(n_lt=12, edges=edges_of([(P12[i ^ 1], P12[i], 0.5 + 0.25 * i) for i in range(12)])), 'pairs12')
     if tier != 'quick':
         lt4 = ['p0', 'p1', 'p2', 'p3']
         for pat in patterns(lt4, lt4, 3):
